@@ -24,31 +24,6 @@ pub assume_specification<'a, K, V, A: core::alloc::Allocator + Clone> [<&'a BTre
         },
         r.obeys_prophetic_iter_laws();
 
-// Verus cannot attach a contract to a PROVIDED trait method ("assume_specification for a provided trait method" is
-// unsupported), so `Iterator::enumerate` / `Iterator::copied` get their assumed contract through a wrapper whose body is
-// exactly the std call; the units replace `X.enumerate()` by `vx_enumerate(X)` (rule M, reported) and nothing else.
-
-// rustdoc Iterator::enumerate: "Creates an iterator which gives the current iteration count as well as the next value.
-// The iterator returned yields pairs (i, val), where i is the current index of iteration and val is the value returned by
-// the iterator."  (An item sequence is a Seq of exec values taken from memory, hence shorter than usize::MAX: no overflow.)
-#[verifier::external_body]
-fn vx_enumerate<I: Iterator>(it: I) -> (r: impl Iterator<Item = (usize, I::Item)>)
-    ensures
-        r.obeys_prophetic_iter_laws() == it.obeys_prophetic_iter_laws(),
-        r.remaining().len() == it.remaining().len(),
-        forall|i: int| 0 <= i < it.remaining().len() ==> #[trigger] r.remaining()[i] == (i as usize, it.remaining()[i]),
-{ it.enumerate() }
-
-// rustdoc Iterator::copied: "Creates an iterator which copies all of its elements. This is useful when you have an iterator
-// over &T, but you need an iterator over T."
-#[verifier::external_body]
-fn vx_copied<'a, T: Copy + 'a, I: Iterator<Item = &'a T>>(it: I) -> (r: impl Iterator<Item = T>)
-    ensures
-        r.obeys_prophetic_iter_laws() == it.obeys_prophetic_iter_laws(),
-        r.decrease() is Some == it.decrease() is Some,
-        r.remaining() == it.remaining().unref(),
-{ it.copied() }
-
 // rustdoc `impl<K: Ord, V> FromIterator<(K, V)> for BTreeMap<K, V>`: "Constructs a BTreeMap<K, V> from an iterator of key-value
 // pairs. If the iterator produces any pairs with equal keys, all but one of the corresponding values will be dropped."
 // vstd specifies `Iterator::collect` as `FromIteratorSpec::from_iter_ensures(self.remaining(), collection)` and interprets
@@ -63,26 +38,6 @@ pub broadcast axiom fn axiom_btree_map_from_iter<K: Ord, V>(remaining: Seq<(K, V
                 &&& forall|i: int| 0 <= i < remaining.len() ==> m@[(#[trigger] remaining[i]).0] == remaining[i].1
             };
 
-/// s[0] + .. + s[len-1] as a mathematical integer
-pub open spec fn seq_sum(s: Seq<usize>) -> int
-    decreases s.len(),
-{
-    if s.len() == 0 { 0 } else { seq_sum(s.drop_last()) + s.last() }
-}
-
-// rustdoc Iterator::sum: "Sums the elements of an iterator. Takes each element, adds them together, and returns the result.
-// An empty iterator returns the additive identity ("zero") of the type. ... Panics: When calling sum() and a primitive
-// integer type is being returned, this method will panic if the computation overflows and overflow checks are enabled."
-// (Without overflow checks the result wraps; the contract therefore says nothing when the mathematical sum exceeds usize.)
-// `sum` consumes the whole iterator, so (as in vstd's contract of `Iterator::collect`) the prophesied item sequence
-// `remaining()` is complete: `will_return_none()`.
-// Wrapper for the same reason as vx_enumerate: `sum` is a provided trait method.
-#[verifier::external_body]
-fn vx_sum<I: Iterator<Item = usize>>(it: I) -> (r: usize)
-    ensures
-        it.obeys_prophetic_iter_laws() ==> it.will_return_none(),
-        it.obeys_prophetic_iter_laws() && seq_sum(it.remaining()) <= usize::MAX ==> r == seq_sum(it.remaining()),
-{ it.sum() }
 
 // `std::collections::btree_set::Difference`: "A lazy iterator producing elements in the difference of BTreeSets."
 #[verifier::external_type_specification]
